@@ -606,8 +606,9 @@ func (lm *levelManager) overlapLN(level int, start, end string) []*list.Element 
 	var overlaps []*list.Element
 	for e := ln.Front(); e != nil; e = e.Next() {
 		index := e.Value.(tableHandle).dataBlockIndex
-		if types.CompareKeys(index.Entries[0].StartKey, end) <= 0 &&
-			types.CompareKeys(index.Entries[len(index.Entries)-1].EndKey, start) >= 0 {
+		// compare user keys: every version of a key the inputs hold has to take part in the merge
+		if types.ParseKey(index.Entries[0].StartKey) <= types.ParseKey(end) &&
+			types.ParseKey(index.Entries[len(index.Entries)-1].EndKey) >= types.ParseKey(start) {
 			overlaps = append(overlaps, e)
 		}
 	}
